@@ -132,7 +132,9 @@ def check_c07(ctx):
     for g in range(groups):
         part = sources[g::groups]
         scn.append({"id": g + 1, "sources": part, "waves": 6 if quick else 40, "widths": [2, 8, 64, 16],
-                    "procs": [1, 2, 4, 16], "seed": ctx.seed * 10 + g})
+                    "procs": [1, 2, 4, 16], "seed": ctx.seed * 10 + g,
+                    # every second driver process starts cold: 64 concurrent compilations before anything else was compiled
+                    "cold": g % 2 == 1})
     logs = os.path.join(ctx.work, "race")
     os.makedirs(logs, exist_ok=True)
     events, stderr = core.vh_sharded(ctx, "conc", scn, timeout=3000, race=True, shards=groups,
@@ -163,7 +165,7 @@ def check_c07(ctx):
     cov = {"evaluations": nobs // 2, "distinct_nontrivial": len(sources),
            "rule": "one evaluation = one compile (sequential baseline or inside a wave of 2/8/64/16 goroutines under GOMAXPROCS 1/2/4/16); "
                    "distinct = different source (TLC-generated programs incl. chained mixins, and corpus files without imports); "
-                   "every concurrent result is compared with the first sequential result of the same source; built with -race",
+                   "every result is compared with the first result of the same source (a sequential one, or for the driver processes that start cold with 64 concurrent compilations the first concurrent one); built with -race",
            "waves": sum(s["waves"] for s in scn), "race_reports": len(races),
            "quiescence_checks": sum(1 for e in events if e["e"] == "quiescent"),
            "states": mc.distinct, "transitions": mc.generated, "traces_validated_against_impl": len(scn),
